@@ -1,4 +1,5 @@
 import QeepProps.C15y
 import QeepProps.C15z
+import QeepProps.C15w
 /-! C15 — all property theorems: `C15`, `C15x`, `C15y` (local backward passes, Softmax for every rank and dim) and `C15z`
-(Sigmoid, Relu, LeakyRelu, Tanh end to end: the gradient `BackPropagate` stores on the activation's input). -/
+(Sigmoid, Relu, LeakyRelu, Tanh end to end: the gradient `BackPropagate` stores on the activation's input). `C15w` (leaf versions: `BackPropagate` succeeds, unconditionally, and stores `f'(x)`). -/
